@@ -133,3 +133,64 @@ func init() {
 		return nil
 	}
 }
+
+// ----- net/netip: 4/16-byte big-endian identity (unique.Handle zones are not modelled)
+func init() {
+	n := nativeTable
+	addrType := func(in *Interp) *types.Struct {
+		return in.world.namedType("net/netip", "Addr").Underlying().(*types.Struct)
+	}
+	mkAddr := func(in *Interp, hi, lo *Term) Value {
+		su := addrType(in)
+		return StructV{StructV{hi, lo}, in.zero(su.Field(1).Type())}
+	}
+	n["net/netip.AddrFrom4"] = func(in *Interp, fr *frame, a []Value) Value {
+		b := a[0].(ArrayV)
+		st := in.st
+		lo := st.Concat(st.Const(0xffff, 32), b[0].(*Term), b[1].(*Term), b[2].(*Term), b[3].(*Term))
+		return mkAddr(in, st.Const(0, 64), lo)
+	}
+	n["(net/netip.Addr).As4"] = func(in *Interp, fr *frame, a []Value) Value {
+		lo := a[0].(StructV)[0].(StructV)[1].(*Term)
+		st := in.st
+		return ArrayV{st.Extract(lo, 31, 24), st.Extract(lo, 23, 16), st.Extract(lo, 15, 8), st.Extract(lo, 7, 0)}
+	}
+	n["net/netip.AddrFrom16"] = func(in *Interp, fr *frame, a []Value) Value {
+		b := a[0].(ArrayV)
+		st := in.st
+		var hi, lo []*Term
+		for i := 0; i < 8; i++ {
+			hi = append(hi, b[i].(*Term))
+			lo = append(lo, b[8+i].(*Term))
+		}
+		return mkAddr(in, st.Concat(hi...), st.Concat(lo...))
+	}
+	n["(net/netip.Addr).As16"] = func(in *Interp, fr *frame, a []Value) Value {
+		s := a[0].(StructV)[0].(StructV)
+		st := in.st
+		out := make(ArrayV, 16)
+		for i := 0; i < 8; i++ {
+			out[i] = st.Extract(s[0].(*Term), 63-8*i, 56-8*i)
+			out[8+i] = st.Extract(s[1].(*Term), 63-8*i, 56-8*i)
+		}
+		return out
+	}
+	// time.Time.AddDate: Go's calendar arithmetic is not the subject; an uninterpreted function of its arguments
+	n["(time.Time).AddDate"] = func(in *Interp, fr *frame, a []Value) Value {
+		t := a[0].(StructV)
+		st := in.st
+		args := []*Term{t[0].(*Term), t[1].(*Term), a[1].(*Term), a[2].(*Term), a[3].(*Term)}
+		sec := st.UF("AddDate.sec", 64, args...)
+		// result: no monotonic reading, nanoseconds preserved
+		return StructV{st.And(t[0].(*Term), st.Const((1<<30)-1, 64)), sec, t[2]}
+	}
+	n["time.now"] = func(in *Interp, fr *frame, a []Value) Value {
+		st := in.st
+		return TupleV{in.freshVar("now.sec", 64), st.Const(0, 32), st.Const(0, 64)}
+	}
+	n["time.runtimeNano"] = func(in *Interp, fr *frame, a []Value) Value { return in.freshVar("nanotime", 64) }
+	n["time.runtimeNow"] = n["time.now"]
+	n["runtime.GOROOT"] = func(in *Interp, fr *frame, a []Value) Value { return in.strConst("/usr/local/go") }
+	n["syscall.Getenv"] = func(in *Interp, fr *frame, a []Value) Value { return TupleV{StrV{}, in.st.False} }
+	n["os.Getenv"] = func(in *Interp, fr *frame, a []Value) Value { return StrV{} }
+}
